@@ -37,8 +37,13 @@ RULE = ('store cases: a forest of real pulse templates of all 14 classes (random
         're-store / link_to(serialize_linked) / unlink between stores; the model gets the state of the object at every '
         'operation. doc cases: valid documents with optional keys dropped / defaults spelled differently, loaded and '
         're-stored. pinned cases: documents written by the pinned code (corpus) must load to the template recorded then. '
-        'Non-trivial = at least one named sub-template below a root, a doc case that changes the document, or a history '
-        'with at least two operations one of which succeeds.')
+        'round 4 families (c10_ord.py): order-sensitive fields (members of every list / tuple / dict valued argument in '
+        'non-sorted name orders with different duration expressions and own windows; loaded vs original also compared '
+        'structurally through their public properties, list orders kept), exact rational constants, numpy scalars, floats '
+        'off the decimal grid as float / string / ExpressionScalar, constructor spellings found by the coverage audit; '
+        'dur cases: the value of the declared duration under 4 assignments against the model term. '
+        'Non-trivial = at least one named sub-template below a root, a doc case that changes the document, a history '
+        'with at least two operations one of which succeeds, or a dur case with a rational duration value.')
 TRUSTED = [
     'Coq 8.16.1 kernel + vm_compute',
     'text level is an oracle: json.dumps/json.loads, sympy printing/parsing of expression strings, repr(float) round trip '
@@ -88,6 +93,7 @@ def _tag(obj):
 _ENVS = None
 _fp_cache = {}
 _fp_vars = {}      # fingerprint -> free symbols (oracle table for the model's parameter_names)
+_fp_expr = {}      # fingerprint -> sympy expression (oracle table for the model's duration values)
 
 
 def _envs():
@@ -100,6 +106,12 @@ def _envs():
         e3 = {n: F(-(k % 5) - 1, 2) for k, n in enumerate(names)}
         _ENVS = [e0, e1, e2, e3]
     return _ENVS
+
+
+def _env_sub(syms, env):
+    import sympy
+    return {s: sympy.Rational(env.get(str(s)[:1].lower(), F(5, 3)).numerator,
+                              env.get(str(s)[:1].lower(), F(5, 3)).denominator) + len(str(s)) - 1 for s in syms}
 
 
 def _fingerprint(sym):
@@ -130,6 +142,7 @@ def _fingerprint(sym):
         h = hashlib.sha1(repr(([str(s) for s in syms], vals)).encode()).hexdigest()[:10]
         r = {'s': 'E' + h}
         _fp_vars['E' + h] = [str(s) for s in syms]
+        _fp_expr['E' + h] = sym
     _fp_cache[key] = r
     return r
 
@@ -396,11 +409,19 @@ def _program_obs(pt, params):
         prog = pt.create_program(parameters={k: v for k, v in params.items() if k in pt.parameter_names})
         if prog is None:
             return None
-        times, volt, _ = render(prog, sample_rate=1)
+        d = prog.duration       # exact (TimeType): '1/3' three times is 1, 0.333... three times is not
+        dur = (int(d.numerator), int(d.denominator)) if hasattr(d, 'numerator') else repr(d)
         mw = prog.get_measurement_windows()
-        return (tuple(np.asarray(times).tolist()),
-                tuple(sorted(((repr(type(ch).__name__), str(ch)), tuple(np.asarray(v).tolist())) for ch, v in volt.items())),
-                tuple(sorted((str(n), tuple(np.asarray(b).tolist()), tuple(np.asarray(l).tolist())) for n, (b, l) in mw.items())))
+        wins = tuple(sorted((str(n), tuple(np.asarray(b).tolist()), tuple(np.asarray(l).tolist())) for n, (b, l) in mw.items()))
+
+        def sampled(rate):
+            times, volt, _ = render(prog, sample_rate=rate)
+            return (tuple(np.asarray(times).tolist()),
+                    tuple(sorted(((repr(type(ch).__name__), str(ch)), tuple(np.asarray(v).tolist())) for ch, v in volt.items())))
+        s1 = _outcome(lambda: sampled(1))
+        # durations below two samples (the exact-rational family): a rate on whose grid thirds and sevenths lie
+        s21 = _outcome(lambda: sampled(21)) if s1[0] != 'ok' else None
+        return (dur, wins, s1, s21)
     return _outcome(run)
 
 
@@ -408,10 +429,51 @@ def _nan_eq(a, b):
     return a == b or repr(a) == repr(b)
 
 
+_DICTLIKE = ('entries', 'amps', 'pmap', 'mmap', 'cmap', 'over', 'integral', 'm')
+
+
+def struct_of(d, keep_dict_order=False):
+    """introspection without object identities; list valued fields keep their order (sub-templates, points, channel list of
+    a PointPT, measurement and constraint lists, loop range), dict valued fields are association lists in canonical order"""
+    if isinstance(d, dict):
+        out = {}
+        for k, v in d.items():
+            if k == 'oid':
+                continue
+            v = struct_of(v, keep_dict_order)
+            if k in _DICTLIKE and isinstance(v, list) and not keep_dict_order:
+                v = sorted(v, key=lambda kv: json.dumps(kv[0], sort_keys=True))
+            out[k] = v
+        return out
+    if isinstance(d, (list, tuple)):
+        return [struct_of(e, keep_dict_order) for e in d]
+    return d
+
+
+def _same_structure(orig, loaded, stats):
+    """the order-sensitive observables of loaded vs original, read off the public properties of both objects (not off
+    get_serialization_data, whose comparison `==` is blind to whatever it normalises on both sides)"""
+    a = _outcome(lambda: _strip_fp(introspect_view(orig, {})))
+    b = _outcome(lambda: _strip_fp(introspect(loaded, {})))
+    if a[0] != 'ok' or b[0] != 'ok':
+        stats['struct_unreadable'] = stats.get('struct_unreadable', 0) + 1
+        return a == b
+    same = struct_of(a[1]) == struct_of(b[1])
+    if same and struct_of(a[1], True) != struct_of(b[1], True):
+        stats['dict_order_changed'] = stats.get('dict_order_changed', 0) + 1      # recorded, not part of the property
+    return same
+
+
 def compare_behaviour(orig, loaded, stats, fresh=None):
     r = {}
     eq = _outcome(lambda: bool(loaded == orig) and bool(orig == loaded))
     r['eq'] = eq == ('ok', True)
+    if not _same_structure(orig, loaded, stats):
+        # `==` compares get_serialization_data of both sides: a lossy / normalising encoder keeps it true
+        stats['struct_diff'] = stats.get('struct_diff', 0) + 1
+        if r['eq']:
+            stats['eq_lossy'] = stats.get('eq_lossy', 0) + 1
+        r['eq'] = False
     ok = True
     for attr in ('parameter_names', 'defined_channels', 'measurement_names'):
         a = _outcome(lambda: set(getattr(orig, attr)))
@@ -516,6 +578,8 @@ def run_impl(case):
                     return _run_pinned(case)
                 if case['kind'] == 'hist':
                     return _run_hist(case, path)
+                if case['kind'] == 'dur':
+                    return _run_dur(case)
                 return _run_doc(case, path)
     except vlib.Timeout:
         return {'hang': True}
@@ -640,6 +704,39 @@ def _run_hist(case, path):
         b['ok'] = True
         loads.append([k, b])
     return {'mops': mops, 'res': res, 'be': be, 'finals': finals, 'loads': loads, 'stats': stats}
+
+
+def _run_dur(case):
+    """the declared duration of every root, evaluated under the 4 fingerprint environments, next to the table
+    atom -> value the model needs to evaluate its own duration term"""
+    import re
+    import sympy
+    objs = G.build(case['nodes'])
+    roots = [objs[i] for i in case['roots']]
+    oids = {}
+    model_roots = [introspect(r, oids) for r in roots]
+    fps = sorted(set(re.findall(r'"(E[0-9a-f]{10})"', json.dumps(model_roots))))
+    durs = [_outcome(lambda: r.duration.sympified_expression) for r in roots]
+    probes = []
+    for env in _envs():
+        tab = []
+        for f in fps:
+            e = _fp_expr[f]
+            v = _outcome(lambda: e.subs(_env_sub(e.free_symbols, env)))
+            if v[0] == 'ok' and getattr(v[1], 'is_Rational', False):
+                tab.append([f, vlib.frac_json(F(int(v[1].p), int(v[1].q)))])
+        vals = []
+        for d in durs:
+            if d[0] != 'ok':
+                vals.append(None)
+                continue
+            v = _outcome(lambda: sympy.sympify(d[1]).subs(_env_sub(d[1].free_symbols, env)).doit())
+            if v[0] == 'ok' and getattr(v[1], 'is_Rational', False):
+                vals.append(vlib.frac_json(F(int(v[1].p), int(v[1].q))))
+            else:
+                vals.append(None)
+        probes.append([tab, vals])
+    return {'droots': model_roots, 'probes': probes, 'raised': [d[0] != 'ok' for d in durs]}
 
 
 def _run_doc(case, path):
@@ -823,6 +920,12 @@ def to_coq(case, obs):
             glist(g_op, obs['mops']), glist(lambda r: SRES.get(r, 'SErrOther'), obs['res']), g_backend(obs['be']),
             glist(lambda f: '(%s, %s, %s)' % (gstr(f[0]), g_pt(f[1]), gbool(f[2])), obs['finals']),
             glist(lambda kb: '(%d%%nat, %s)' % (kb[0], g_lobs(kb[1])), obs['loads']))
+    if case['kind'] == 'dur':
+        gq = lambda x: vlib.gQ(F(x))
+        return '(CDur %s %s)' % (
+            glist(g_pt, obs['droots']),
+            glist(lambda pr: '(%s, %s)' % (glist(lambda kv: '(%s, %s)' % (gstr(kv[0]), gq(kv[1])), pr[0]),
+                                           glist(lambda v: gopt(gq, v), pr[1])), obs['probes']))
     if case['kind'] == 'pinned':
         return '(CPinned %s %s %s %s %s)' % (g_backend(obs['be']), gstr(case['load']), g_pt(case['expect']),
                                             gopt(g_pt, obs.get('loaded')), gbool(obs.get('iface_ok', False)))
@@ -852,6 +955,8 @@ def nontrivial(case, obs):
         return any(named_below(r) for r in obs['roots'])
     if case.get('kind') == 'pinned':
         return len(case['docs']) > 1
+    if case.get('kind') == 'dur':
+        return any(v is not None for _, vals in obs.get('probes', []) for v in vals)
     if case.get('kind') == 'hist':
         return len(obs.get('res', [])) >= 2 and 'ok' in obs.get('res', [])
     return obs.get('ok', False) and obs.get('redoc') != obs.get('be')
@@ -883,6 +988,11 @@ def histogram_keys(case, obs):
             keys.append('hload:' + ('ok' if b['ok'] else 'fail'))
         for f in case.get('flags', []):
             keys.append('flag:' + f)
+    elif case['kind'] == 'dur':
+        for n in case['nodes']:
+            keys.append('durnode:' + n['k'])
+        for _, vals in obs['probes']:
+            keys.extend('dur:' + ('value' if v is not None else 'none') for v in vals)
     elif case['kind'] == 'pinned':
         keys.append('pinned:' + ('ok' if obs['ok'] else 'fail'))
     else:
@@ -893,10 +1003,10 @@ def histogram_keys(case, obs):
 
 def classify(case, obs):
     flags = set(case.get('flags', []))
-    if 'dup_id' in flags:
-        return 'dup_identifier_in_transaction'
     if 'int_key' in flags:
         return 'int_channel_key'
+    if 'float_prec' in flags:
+        return 'float_precision_not_preserved'
     return None
 
 
@@ -1073,23 +1183,7 @@ def search_failing(ctx, broken):
     """spec oracle against the implementation: every stored root must load back equal with equal behaviour"""
     import random
 
-    dictlike = ('entries', 'amps', 'pmap', 'mmap', 'cmap', 'over', 'integral', 'm')
-
-    def strip(d):
-        """introspection without object identities, dict-like association lists in canonical order"""
-        if isinstance(d, dict):
-            out = {}
-            for k, v in d.items():
-                if k == 'oid':
-                    continue
-                v = strip(v)
-                if k in dictlike and isinstance(v, list):
-                    v = sorted(v, key=lambda kv: json.dumps(kv[0], sort_keys=True))
-                out[k] = v
-            return out
-        if isinstance(d, (list, tuple)):
-            return [strip(e) for e in d]
-        return d
+    strip = struct_of
     pinned = os.path.join(vlib.VERIF, 'corpus', PID, 'pinned_documents.json')
     if os.path.exists(pinned):
         with open(pinned) as fh:
@@ -1118,6 +1212,12 @@ def search_failing(ctx, broken):
         obs = run_impl(case)
         if classify(case, obs) is None and _bad_loads(obs):
             return case, obs, 'a template with an optional argument declared as empty (%s) does not load back as the same pulse' % case.get('label')
+    from props import c10_ord
+    for case in c10_ord.round4_cases('quick'):
+        obs = run_impl(case)
+        if classify(case, obs) is None and _bad_loads(obs):
+            return case, obs, 'round-4 family case %s does not load back as the same pulse: %r' % (
+                case.get('label'), [b for _, b in obs.get('loads', [])][:1])
     hist = list(G.fixed_hist_cases('quick'))
     tries = 0
     while len(hist) < 80 and tries < 500:
@@ -1140,7 +1240,11 @@ MANIFEST = {
                   'storage state over any backend puts exactly the documents of all named nodes into the backend and touches '
                   'nothing else (C10_store_step); store then load through a fresh storage returns an equal template, also at '
                   'the end of any history of stores through two storage instances on a pre-existing backend (C10_storage, '
-                  'C10_storage_history); round 3: histories with explicit overwrite and deletion (C10_history_ops: an '
+                  'C10_storage_history); round 4: the declared duration as a model function of all classes (term over the '
+                  'serialised expressions) is equal for templates equal up to identity, hence for the loaded template, and '
+                  'evaluates equally under every table of atom values (C10_duration_erase, C10_storage_duration); '
+                  'sub-templates come back in the given order (C10_storage_children_order) and the order is observable in '
+                  'document, template and duration (C10_amc_order_observable); round 3: histories with explicit overwrite and deletion (C10_history_ops: an '
                   'operation that writes P, with P\'s still-cached descendants complete, and no later deletion of an '
                   'identifier of P => P is in the backend at the end and loads back equal; deletions before the write are '
                   'repaired by it, C10_overwrite_restores), with kernel-evaluated witnesses that both guards are needed; '
@@ -1153,14 +1257,19 @@ MANIFEST = {
                   '(documents, outcomes, loads, interface sets) and by a corpus of pinned documents that must keep loading.',
     'level_note': 'Partial: (1) text level (json.dumps/loads, sympy printing/parsing incl. the free-symbol table used by '
                   'the interface model, float repr) is an oracle; (2) equal duration and equal behaviour (sampled program, '
-                  'windows, integral, initial/final values) of loaded vs original are observed for 2 parameter assignments, '
-                  'not derived from a template semantics; (3) the history theorems assume no identifier clash and no '
+                  'windows, integral, initial/final values) of loaded vs original is observed for 2 parameter assignments, '
+                  'not derived from a template semantics; the duration term is evaluated in the model only on the '
+                  'substitution-free fragment (no MappingPT / ForLoopPT above the compared node), atom values are an oracle '
+                  'table; known finding float_precision_not_preserved (numpy float32/16 scalars, 16-17 digit decimal strings, '
+                  'ConstantPT with an ExpressionScalar float) is outside the model (text level); (3) the history theorems assume no identifier clash and no '
                   'mutation (link_to) in the history; link_to histories and histories with delete through a second '
                   'PulseStorage are covered by the correspondence check only / not at all (a failed store that loaded a '
                   'child from the backend leaves it in the temporary storage: not modelled, unobservable on one storage); '
                   '(4) a linked placeholder below a parent is not modelled (storage key differs from the document\'s '
-                  'identifier). Guards: string dict keys (finding int_channel_key), one identifier per object (finding '
-                  'dup_identifier_in_transaction).',
+                  'identifier); (5) the transaction guard of repo commit a5bca40 (second object under one identifier in a '
+                  'transaction is rejected) is a model function in front of the core operations (Tx.v), tied to the code by '
+                  'correspondence; that it never fires on consistent trees is not proved. Guards: string dict keys (finding '
+                  'int_channel_key), one identifier per object.',
     'technique': 'Coq proof (structural induction on nested template trees, transaction invariant for store, backend-agreement '
                  'invariant for histories with overwrite/delete, cache-closure invariant for load) + correspondence check '
                  '(model-independent key-level reading of the protocol as specification) + pinned-document corpus',
